@@ -11,7 +11,7 @@ do-approve and missing-approve."""
 import collections, json, os, shutil, subprocess
 from concurrent.futures import ThreadPoolExecutor
 from vlib import common as C
-from vlib import c20fam, c20run, c20model, c20corpus
+from vlib import c20fam, c20run, c20model, c20corpus, drcrun
 from vlib import session as S
 
 KNOWN = {
@@ -202,7 +202,47 @@ def main(ctx):
                                         replay=dict(property='C20', prefix=a, parsed=b, how='nah ciscoroutes (the real dstOfRoute)', result=r[1])))
                 elif x:
                     breaks.append(dict(correspondence='Robust/Routes.v vs cisco.dstOfRoute', case=dict(prefix=a, parsed=b, impl=r)))
-        cov = dict(evaluations=len(run) + 3 * len(arun) + len(jobs) + len(rjobs), distinct_nontrivial=len(run) + len(arun),
+        # ---- 5. Linux parser: outcome class of drc against Robust/LinuxParse.v ----
+        LMSG = [('Unexpected route: ', 1), ('Found chain policy outside of table', 2), ('Found rule outside of table', 3), ('Unsupported command', 4),
+                ('Incomplete command', 5), ('Must define policy before adding rules', 6), ("Unexpected trailing '!'", 7), ('Unknown command:', 8)]
+        ltexts, lseen = [], set()
+        for e in index:
+            if e['model'] == 'Linux':
+                for rel in e['files']:
+                    if not rel.endswith('.info'):
+                        t = open(os.path.join(e['dir'], rel), errors='surrogateescape').read()
+                        if t not in lseen and c20model.ascii_only(t) and '[APPEND]' not in t:
+                            lseen.add(t)
+                            ltexts.append(t)
+        lmut = []
+        for case in fam:
+            rel = case['file']
+            if case['model'] == 'Linux' and not rel.endswith('.info'):
+                t = case['files'][rel]
+                if t not in lseen and c20model.ascii_only(t) and len(t) < 4000:
+                    lseen.add(t)
+                    lmut.append(t)
+        ltexts = ltexts + select(lmut, 300 if quick else 4000) + ['ip route add 10.0.0.0/24 dev eth0 proto\n', '*filter\n:INPUT DROP\n-A INPUT !\n',
+                                                                 '*filter\n:INPUT DROP\n-A INPUT -s ! 10.0.0.1 ! -j ACCEPT\nCOMMIT\n', '-A INPUT -j ACCEPT\n', ':INPUT DROP\n']
+        ljobs = [dict(model='Linux', device=t, netspoc=t) for t in ltexts]
+        lres = drcrun.run_many(ctx, ljobs)
+        text = ('From Coq Require Import List String.\nFrom NA Require Import Robust.GoStr Robust.LinuxParse.\nImport ListNotations.\nOpen Scope string_scope.\n'
+                'Definition V := Eval vm_compute in map lclass %s.\nPrint V.\n' % C.clist([C.cbytes(t) for t in ltexts]))
+        lv = C.parse_verdict_list(ctx.coq_eval('c20linux', text), len(ltexts))
+        for t, r, mv in zip(ltexts, lres, lv):
+            if r['panic']:
+                failing.append(dict(what='Linux parser: drc panics', finding=None, key='linux-panic', replay=dict(property='C20', model='Linux', text=t, stderr=r['err'][:400])))
+                continue
+            iv = 0
+            for msg, k in LMSG:
+                if msg in r['err']:
+                    iv = k
+                    break
+            if iv == 0 and r['rc'] != 0:
+                iv = -1        # another diagnostic (not of the parser)
+            if iv != mv and iv != -1:
+                breaks.append(dict(correspondence='Robust/LinuxParse.v vs linux.ParseConfig: outcome %s, model %s' % (iv, mv), case=dict(text=t[:800], stderr=r['err'][:300], rc=r['rc'])))
+        cov = dict(evaluations=len(run) + 3 * len(arun) + len(jobs) + len(rjobs) + len(ltexts), linux_parse_cases=len(ltexts), distinct_nontrivial=len(run) + len(arun),
                    exhaustive=(not quick),
                    rule='family of vlib/c20fam.py over every file-compare example of go/testdata/*.t (%d inputs): per line word-prefix truncations, '
                         'single-token deletions, duplications, swaps, indentation +1/+2/-1, doubled blank, line dropped/doubled/swapped, file cut after '
